@@ -80,3 +80,25 @@ def pick(x, lo, hi):
         if x == v:
             return v
     return hi
+
+
+class StubGap(BaseException):
+    """The code under test used a function of a stubbed module that the stub does not model.  This says nothing about
+    the property: the runner reports it as a harness error (exit 3), never as a VIOLATION."""
+
+
+class NS:
+    """attribute namespace standing in for a module (os, time, select, ...) inside one gunicorn module"""
+
+    def __init__(self, _name, **kw):
+        self.__dict__["_name"] = _name
+        self.__dict__.update(kw)
+
+    def __getattr__(self, attr):
+        if attr.startswith("__"):
+            raise AttributeError(attr)
+        raise StubGap("%s.%s is not modelled by the harness stub" % (self.__dict__["_name"], attr))
+
+
+def ns(_name, **kw):
+    return NS(_name, **kw)
